@@ -55,12 +55,21 @@ def _scalar_tree(fn):
     loop = [st for st in fn.body if isinstance(st, ast.While)]
     if len(loop) != 1:
         raise AnalysisError("brentsroot: main loop not found")
-    bt = BoolTracker(canon=Canon(env=_arith_env(fn)))
-    bt.run(loop[0].body)
-    if "bisect_now" not in bt.trees:
-        # the name may differ: take the value assigned to mflag
-        raise AnalysisError("brentsroot: `bisect_now` not found")
-    return bt, bt.trees["bisect_now"], loop[0]
+    # the bisection decision is the condition under which `s = (a + b) / 2` executes in the loop body (whatever local names carry it)
+    from ..sym import path_condition
+    cb = Canon(env=_arith_env(fn))
+    want = cb.ptext(ast.parse("(a + b) / 2", mode="eval").body)
+    bis = [st for st in ast.walk(loop[0]) if isinstance(st, ast.Assign) and src(st.targets[0]) == "s" and cb.ptext(st.value) == want]
+    if len(bis) != 1:
+        raise AnalysisError("brentsroot: bisection assignment `s = (a + b) / 2` not found")
+    top = bis[0]
+    while top._parent is not loop[0]:
+        top = top._parent
+    bt = BoolTracker(canon=cb)
+    bt.run(loop[0].body[:loop[0].body.index(top)])
+    tree, _ = path_condition(bis[0], loop[0], tracker=bt)
+    bt.decision_stmt = top
+    return bt, tree, loop[0]
 
 
 def _vector_tree(fn):
@@ -149,7 +158,13 @@ def safeguard(repo, run):
             "different arithmetic tests: only scalar %s, only vector %s" % (sorted(set(at_s) - set(at_v)), sorted(set(at_v) - set(at_s))) if not same_atoms
             else "e.g. at %s" % {k: v for k, v in list(diff_row.items())[:4]}), text="scalar/vector bisection predicate agreement")
     # mflag update: scalar mflag = bisect_now ; vector mflag[mask] = True, mflag[~mask] = False
-    oks = any(isinstance(st, ast.Assign) and src(st.targets[0]) == "mflag" and src(st.value) == "bisect_now" for st in loop_s.body)
+    # the flag's value when the decision is taken, as a boolean function, must be that decision (it is tested next iteration as 'last step was a bisection')
+    mtree = bt_s.trees.get("mflag")
+    oks = mtree is not None
+    if oks:
+        mt = _strip_versions(mtree)
+        ats = sorted(set(tree_atoms(mt)) | set(at_s))
+        oks = len(ats) <= 14 and all(eval_bool(mt, dict(zip(ats, vals))) == eval_bool(tree_s, dict(zip(ats, vals))) for vals in itertools.product((False, True), repeat=len(ats)))
     run.judged(rid, "scalar mflag follows the bisection decision", ok=oks)
     if not oks:
         run.report("C14.2", OPT, loop_s, "brentsroot: mflag is not set to the bisection decision of the iteration", text="scalar mflag update")
